@@ -119,11 +119,12 @@ Definition pred_eqb (a b : pred) : bool :=
 Definition opred_eqb (a b : option pred) :=
   match a, b with None, None => true | Some x, Some y => pred_eqb x y | _, _ => false end.
 
-(* The Eq/Ord of TypeCheckRep compare [typ] only (pdf_type_check.rs, impl PartialEq/Ord for
-   TypeCheckRep); TypeCheck, PDFType, DictEntry, DictStarEntry derive theirs. *)
+(* The Eq/Ord of TypeCheckRep compare the type, the indirect specification and the identity of
+   the predicate object (the runner creates one predicate object per distinct predicate text, so
+   identity is equality of the [pred] term); TypeCheck, PDFType, DictEntry, DictStarEntry derive theirs. *)
 Fixpoint chk_eqb (a b : chk) {struct a} : bool :=
   match a, b with
-  | CRep t _ _, CRep t' _ _ => ty_eqb t t'
+  | CRep t p i, CRep t' p' i' => ty_eqb t t' && ispec_eqb i i' && opred_eqb p p'
   | CNamed n, CNamed m => bytes_eqb n m
   | _, _ => false
   end
@@ -177,7 +178,7 @@ with norm_ty (t : ty) : ty :=
               | [] => []
               | x :: r =>
                 match norm_chk x with
-                | CRep (TDisj nested) _ _ => nested ++ go r     (* the nested disjunct's own pred / indirect are dropped *)
+                | CRep (TDisj nested) None IAllowed => nested ++ go r   (* only without a predicate / indirect spec of its own *)
                 | y => y :: go r
                 end
               end) alts)
@@ -187,69 +188,93 @@ with norm_dent (e : dent) : dent :=
 
 (* ---------- state ---------- *)
 Definition pend := (obj * chk)%type.
-Definition todo := list (list pend * nat).
+(* an entry of the stack: the pending set, the index of the next alternative of the disjunct in
+   progress at its front, the length of the trail of examined checks when that disjunct was taken up *)
+Definition pset := (list pend * nat * nat)%type.
+Definition todo := list pset.
 Definition pend_eqb (a b : pend) := obj_eqb (fst a) (fst b) && chk_eqb (snd a) (snd b).
+(* membership in State.examined (the trail lists its elements, newest first) and in State.failed *)
 Definition have_examined (ex : list pend) (p : pend) := existsb (pend_eqb p) ex.
 
 Inductive tcerr := ESize | EMissing | EForbiddenKey | EType | EValue | EPredErr | EUnknown.
 Inductive outcome := Accept | Reject (e : tcerr) | SpecErr (e : tcerr) | Panicked | Stuck.
 
-Definition todo_size (td : todo) : nat := fold_right (fun s n => S (len (fst s)) + n) 0 td.
+Definition todo_size (td : todo) : nat := fold_right (fun s n => S (len (fst (fst s))) + n) 0 td.
 
 (* State::unwind — pops pending sets until an in-progress disjunct is at the front of the top
    set; [k] counts loop iterations *)
 Fixpoint unwind (td : todo) (k : nat) : option todo * nat :=
   match td with
   | [] => (None, S k)
-  | (pending, idx) :: rest =>
+  | (pending, idx, mark) :: rest =>
     match pending with
     | (_, CRep (TDisj _) _ _) :: _ => if Nat.ltb 0 idx then (Some td, S k) else unwind rest (S k)
     | _ => unwind rest (S k)
     end
   end.
 
-Inductive getres := GNext (p : pend) (td : todo) | GDone | GFail | GPanic.
+(* while self.trail.len() > *mark { examined.remove(trail.pop()) } *)
+Definition rollback (ex : list pend) (mark : nat) : list pend := skipn (len ex - mark) ex.
 
-(* State::get_next_check; [fuel] bounds its loop (todo_size + 1 suffices), [k] counts iterations *)
-Fixpoint get_next (fuel : nat) (err : bool) (td : todo) (k : nat) : option (getres * nat) :=
+(* the check of a disjunct's own predicate and indirect specification, as a check of type Any *)
+Definition own_check (o : obj) (p : option pred) (i : ispec) : list pend :=
+  match p, i with
+  | None, IAllowed => []
+  | _, _ => [(o, CRep TAny p i)]
+  end.
+
+Inductive getres := GNext (p : pend) (td : todo) (ex fl : list pend) | GDone | GFail | GPanic.
+
+(* State::get_next_check; [fuel] bounds its loop (todo_size + 1 suffices), [k] counts iterations;
+   [ex] is the trail of examined checks, [fl] the failed alternatives *)
+Fixpoint get_next (fuel : nat) (err : bool) (td : todo) (ex fl : list pend) (k : nat) : option (getres * nat) :=
   match fuel with
   | O => None
   | S f =>
     let k := S k in
     match td with
     | [] => Some (if err then GFail else GDone, k)
-    | (pending, idx) :: rest =>
+    | (pending, idx, mark) :: rest =>
       match pending with
       | [] =>
         if err then
           match unwind td k with
-          | (Some td', k') => get_next f err td' k'
+          | (Some td', k') => get_next f err td' ex fl k'
           | (None, k') => Some (GFail, k')
           end
-        else get_next f err rest k
+        else get_next f err rest ex fl k
       | (o, tc) :: pend' =>
-        let popped := (pend', idx) :: rest in
-        let do_unwind (_ : unit) :=
-          match unwind popped k with
-          | (Some td', k') => get_next f err td' k'
+        let do_unwind (td2 : todo) (ex2 fl2 : list pend) :=
+          match unwind td2 k with
+          | (Some td', k') => get_next f err td' ex2 fl2 k'
           | (None, k') => Some (GFail, k')
           end in
         match tc with
-        | CRep (TDisj set) _ _ =>
+        | CRep (TDisj set) p i =>
           if Nat.ltb 0 idx then                         (* an in-progress disjunct *)
-            if negb err then get_next f err ((pend', 0) :: rest) k
-            else if Nat.ltb idx (len set) then
-              match nth_error set idx with
-              | Some c => Some (GNext (o, c) (((o, tc) :: pend', S idx) :: rest), k)
-              | None => None
+            if negb err then get_next f err ((pend', 0, mark) :: rest) ex fl k
+            else
+              (* the alternative tried last has failed: remember it, forget what was examined under it *)
+              match nth_error set (idx - 1) with
+              | None => Some (GPanic, k)                (* set[*next_idx - 1] *)
+              | Some a =>
+                let fl' := (o, a) :: fl in
+                let ex' := rollback ex mark in
+                if Nat.ltb idx (len set) then
+                  match nth_error set idx with
+                  | Some c => Some (GNext (o, c) (((o, tc) :: pend', S idx, mark) :: rest) ex' fl', k)
+                  | None => None
+                  end
+                else do_unwind ((pend', 0, mark) :: rest) ex' fl'   (* *next_idx = 0 *)
               end
-            else do_unwind tt
-          else if err then do_unwind tt
+          else if err then do_unwind ((pend', idx, mark) :: rest) ex fl
           else match set with
                | [] => Some (GPanic, k)                  (* unreachable!() *)
-               | c :: _ => Some (GNext (o, c) (((o, tc) :: pend', 1) :: rest), k)
+               | c :: _ =>
+                 Some (GNext (o, c) (((o, tc) :: own_check o p i ++ pend', 1, len ex) :: rest) ex fl, k)
                end
-        | _ => if err then do_unwind tt else Some (GNext (o, tc) popped, k)
+        | _ => if err then do_unwind ((pend', idx, mark) :: rest) ex fl
+               else Some (GNext (o, tc) ((pend', idx, mark) :: rest) ex fl, k)
         end
       end
     end
@@ -257,15 +282,18 @@ Fixpoint get_next (fuel : nat) (err : bool) (td : todo) (k : nat) : option (getr
 
 Definition return_check (td : todo) (p : pend) : option todo :=
   match td with
-  | (pending, i) :: rest => Some ((p :: pending, i) :: rest)
+  | (pending, i, m) :: rest => Some ((p :: pending, i, m) :: rest)
   | [] => None                                           (* unreachable!() *)
   end.
 
 Definition push_checks (ex : list pend) (td : todo) (cs : list pend) : todo :=
   match filter (fun p => negb (have_examined ex p)) cs with
   | [] => td
-  | set => (set, 0) :: td
+  | set => (set, 0, 0) :: td
   end.
+
+(* State::push_disjunct *)
+Definition push_disjunct (td : todo) (p : pend) : todo := ([p], 0, 0) :: td.
 
 Definition prim_match (o : obj) (p : prim) : bool :=
   match o, p with
@@ -373,29 +401,49 @@ Fixpoint stream_ents (d : list (bytes * obj)) (ents : list dent) : option (optio
   end.
 
 Inductive stepres :=
-| SCont (td : todo) (ex : list pend) (err : option tcerr)
+| SCont (td : todo) (ex fl : list pend) (err : option tcerr)
 | SStop (o : outcome).
 
 Definition is_some {A} (x : option A) : bool := match x with Some _ => true | None => false end.
 
+Definition id_eqb (a b : N * N) : bool := N.eqb (fst a) (fst b) && N.eqb (snd a) (snd b).
+
+(* lookup_value: follows chains of references; None = undefined or a cycle (null).  The loop adds a
+   defined, not yet seen identifier to [seen] at every turn, so S (len octx_) turns suffice. *)
+Fixpoint lookup_value (fuel : nat) (seen : list (N * N)) (id : N * N) : option obj :=
+  match fuel with
+  | O => None
+  | S f =>
+    if existsb (id_eqb id) seen then None
+    else match octx_get octx_ id with
+         | None => None
+         | Some (ORef n g) => lookup_value f (id :: seen) (n, g)
+         | Some o => Some o
+         end
+  end.
+Definition ref_value (n g : N) : obj :=
+  match lookup_value (S (S (len octx_))) [] (n, g) with Some o => o | None => ONull end.
+
+Definition no_attrs (r : rep) : bool :=
+  match r_pred r, r_ind r with None, IAllowed => true | _, _ => false end.
+
 (* the arms of the match on (o.val(), c.typ(), c.indirect()) in the work loop; [td] is the todo
-   after get_next_check, [ex1] the examined set after state.examine, [tc] the check as popped
-   and [c] its resolution *)
-Definition step_arm (td : todo) (ex1 : list pend) (k' : nat) (o : obj) (tc : chk) (c : rep) : stepres * nat :=
-  let cont td' e := (SCont td' ex1 e, k') in
+   after get_next_check, [ex1] the trail after state.examine, [tc] the check as popped and [c]
+   its resolution *)
+Definition step_arm (td : todo) (ex1 fl : list pend) (k' : nat) (o : obj) (tc : chk) (c : rep) : stepres * nat :=
+  let cont td' e := (SCont td' ex1 fl e, k') in
   let stop x := (SStop x, k') in
   match o, r_ty c, r_ind c with
   | ORef _ _, _, IForb => cont td (Some EValue)
   | ORef n g, _, _ =>
-    match (match octx_get octx_ (n, g) with
-           | Some o' => return_check td (o', allow_indirect c)
-           | None => return_check td (ONull, tc)
-           end) with
+    (* a defined object and the null object standing for an undefined one are both checked with
+       the indirect specification removed *)
+    match return_check td (ref_value n g, allow_indirect c) with
     | Some td' => cont td' None
     | None => stop Panicked
     end
   | _, _, IReq => cont td (Some EValue)
-  | _, TDisj _, _ => stop (SpecErr EPredErr)
+  | _, TDisj _, _ => stop (SpecErr EPredErr)                  (* not reached: see [step] *)
   | _, TAny, _ => cont td (check_pred o (r_pred c))
   | _, TPrim p, _ =>
     if prim_match o p then cont td (check_pred o (r_pred c)) else cont td (Some EType)
@@ -405,67 +453,86 @@ Definition step_arm (td : todo) (ex1 : list pend) (k' : nat) (o : obj) (tc : chk
     else match resolve e with
          | None => stop (SpecErr EUnknown)
          | Some re =>
-           match r_ty re with
-           | TAny => cont td (check_pred o (r_pred c))
-           | _ => cont (push_checks ex1 td (List.map (fun x => (x, e)) l)) None
-           end
+           if match r_ty re with TAny => no_attrs re | _ => false end
+           then cont td (check_pred o (r_pred c))           (* the elements are skipped *)
+           else match check_pred o (r_pred c) with
+                | Some er => cont td (Some er)
+                | None => cont (push_checks ex1 td (List.map (fun x => (x, e)) l)) None
+                end
          end
   | OArr l, THet es, _ =>
     if negb (Nat.eqb (len l) (len es)) then cont td (Some ESize)
-    else cont (push_checks ex1 td (combine l es)) None
+    else match check_pred o (r_pred c) with
+         | Some er => cont td (Some er)
+         | None => cont (push_checks ex1 td (combine l es)) None
+         end
   | ODict d, TDict ents star, _ =>
-    match dict_ents d ents with
-    | None => stop (SpecErr EUnknown)
-    | Some (Some e, _) => cont td (Some e)
-    | Some (None, cs) =>
-      match star with
-      | None => cont (push_checks ex1 td cs) None
-      | Some (sc, sopt) =>
-        match resolve sc with
-        | None => stop (SpecErr EUnknown)
-        | Some rs =>
-          match star_ents d (List.map ent_key ents) sc sopt (r_ty rs) with
-          | (Some e, _) => cont td (Some e)
-          | (None, cs2) => cont (push_checks ex1 td (cs ++ cs2)) None
+    match check_pred o (r_pred c) with
+    | Some er => cont td (Some er)
+    | None =>
+      match dict_ents d ents with
+      | None => stop (SpecErr EUnknown)
+      | Some (Some e, _) => cont td (Some e)
+      | Some (None, cs) =>
+        match star with
+        | None => cont (push_checks ex1 td cs) None
+        | Some (sc, sopt) =>
+          match resolve sc with
+          | None => stop (SpecErr EUnknown)
+          | Some rs =>
+            match star_ents d (List.map ent_key ents) sc sopt (r_ty rs) with
+            | (Some e, _) => cont td (Some e)
+            | (None, cs2) => cont (push_checks ex1 td (cs ++ cs2)) None
+            end
           end
         end
       end
     end
   | OStream d _, TStream ents, _ =>
-    match stream_ents d ents with
-    | None => stop (SpecErr EUnknown)
-    | Some (Some e, _) => cont td (Some e)
-    | Some (None, cs) => cont (push_checks ex1 td cs) None
+    match check_pred o (r_pred c) with
+    | Some er => cont td (Some er)
+    | None =>
+      match stream_ents d ents with
+      | None => stop (SpecErr EUnknown)
+      | Some (Some e, _) => cont td (Some e)
+      | Some (None, cs) => cont (push_checks ex1 td cs) None
+      end
     end
   | _, _, _ => cont td (Some EType)
   end.
 
 (* one iteration of the work loop of check_type *)
-Definition step (td : todo) (ex : list pend) (err : option tcerr) (k : nat) : stepres * nat :=
-  match get_next (S (todo_size td)) (is_some err) td (S k) with
+Definition step (td : todo) (ex fl : list pend) (err : option tcerr) (k : nat) : stepres * nat :=
+  match get_next (S (todo_size td)) (is_some err) td ex fl (S k) with
   | None => (SStop Stuck, S k)
   | Some (GPanic, k') => (SStop Panicked, k')
   | Some (GFail, k') =>
     (SStop (match err with Some e => Reject e | None => Panicked end), k')   (* assert!(result.is_some()) *)
   | Some (GDone, k') =>
     (SStop (match err with None => Accept | Some _ => Panicked end), k')     (* assert!(result.is_none()) *)
-  | Some (GNext (o, tc) td, k') =>
+  | Some (GNext (o, tc) td ex fl, k') =>
     match resolve tc with
     | None => (SStop (SpecErr EUnknown), k')
     | Some c =>
-      if have_examined ex (o, tc) then (SCont td ex err, k')    (* skipped: [result] is left as it was *)
-      else step_arm td ((o, tc) :: ex) k' o tc c                (* state.examine; result = None *)
+      if have_examined fl (o, tc) then (SCont td ex fl (Some EValue), k')   (* an alternative that failed before *)
+      else if have_examined ex (o, tc) then (SCont td ex fl None, k')       (* examined: counts as passed *)
+      else
+        let ex1 := (o, tc) :: ex in                                         (* state.examine; result = None *)
+        match r_ty c with
+        | TDisj _ => (SCont (push_disjunct td (o, rep_chk c)) ex1 fl None, k')   (* a named or nested disjunct *)
+        | _ => step_arm td ex1 fl k' o tc c
+        end
     end
   end.
 
 (* the work loop: a single loop over the explicit stack [td] *)
-Fixpoint run (fuel : nat) (td : todo) (ex : list pend) (err : option tcerr) (k : nat) : outcome * nat :=
+Fixpoint run (fuel : nat) (td : todo) (ex fl : list pend) (err : option tcerr) (k : nat) : outcome * nat :=
   match fuel with
   | O => (Stuck, k)
   | S f =>
-    match step td ex err k with
+    match step td ex fl err k with
     | (SStop o, k') => (o, k')
-    | (SCont td' ex' err', k') => run f td' ex' err' k'
+    | (SCont td' ex' fl' err', k') => run f td' ex' fl' err' k'
     end
   end.
 
@@ -473,7 +540,7 @@ Fixpoint run (fuel : nat) (td : todo) (ex : list pend) (err : option tcerr) (k :
 Definition check_fuel (fuel : nat) (o : obj) (c : chk) : outcome * nat :=
   match resolve c with
   | None => (SpecErr EUnknown, 0)
-  | Some r => run fuel [([(o, norm_chk (rep_chk r))], 0)] [] None 0
+  | Some r => run fuel [([(o, norm_chk (rep_chk r))], 0, 0)] [] [] None 0
   end.
 End Run.
 
@@ -537,33 +604,43 @@ Definition allowc (c : chk) : chk :=
 (* O: null, the sub-objects of the root and of every definition of the context *)
 Definition uni_objs (oc : octx) (o : obj) : list obj :=
   ONull :: subobjs (obj_size o) o ++ flat_map (fun e => subobjs (obj_size (snd e)) (snd e)) oc.
-(* C: the sub-checks of the (normalised) root and of every named check, and their
-   indirection-allowed versions *)
+(* the check of a disjunct's own attributes *)
+Definition ownc (c : chk) : chk :=
+  match c with CRep _ p i => CRep TAny p i | CNamed _ => c end.
+
+(* C: the sub-checks of the (normalised) root and of every named check, their
+   indirection-allowed versions, and the own-attribute checks of both *)
 Definition uni_chks0 (tc : tctx) (c : chk) : list chk :=
   subchks (chk_size c) c
   ++ flat_map (fun e => subchks (chk_size (rep_chk (snd e))) (rep_chk (snd e))) tc.
 Definition uni_chks (tc : tctx) (c : chk) : list chk :=
-  uni_chks0 tc c ++ List.map allowc (uni_chks0 tc c).
+  let l := uni_chks0 tc c in
+  l ++ List.map allowc l ++ List.map ownc l ++ List.map (fun x => allowc (ownc x)) l.
 
 Definition max_list (l : list nat) : nat := fold_right Nat.max 0 l.
 (* fan-out: the largest number of members of an object / of sub-checks (entries, alternatives) of a check *)
 Definition fan_o (os : list obj) : nat := max_list (List.map (fun o => len (kids_obj o)) os).
 Definition fan_c (cs : list chk) : nat := max_list (List.map (fun c => len (kids_chk c)) cs).
 
-(* the proved bound on the number of iterations of the work loop (Proofs/TypeCheckTerm.v):
-   |O|·|C|·(Wpush + 1) + K + 2  with  K = fan_c + 2,  Wpush = 1 + K·(fan_o + fan_c + 2) *)
-Definition bound_K (fc : nat) : nat := fc + 2.
+(* the proved bound on the number of iterations of the work loop (Proofs/TypeCheckTerm.v), with
+   P = |O|·|C|, K = fan_c + 3, Wpush = 1 + K·(fan_o + fan_c + 2), M = Wpush + 1:
+       P·M·(P + 1) + P + K + 2
+   (between two failures of alternatives at most P·M + K + 2 iterations, and every failure that
+   makes the checker forget examined checks adds a new pair to the failed alternatives) *)
+Definition bound_K (fc : nat) : nat := fc + 3.
 Definition bound_push (fo fc : nat) : nat := 1 + bound_K fc * (fo + fc + 2).
 Definition step_bound (oc : octx) (tc : tctx) (o : obj) (c : chk) : nat :=
   let os := uni_objs oc o in
   let cs := uni_chks tc c in
-  len os * len cs * (bound_push (fan_o os) (fan_c cs) + 1) + bound_K (fan_c cs) + 2.
+  let P := len os * len cs in
+  P * (bound_push (fan_o os) (fan_c cs) + 1) * (P + 1) + P + bound_K (fan_c cs) + 2.
 Definition step_bound_N (oc : octx) (tc : tctx) (o : obj) (c : chk) : N :=
   let os := uni_objs oc o in
   let cs := uni_chks tc c in
   let fo := N.of_nat (fan_o os) in
   let fc := N.of_nat (fan_c cs) in
-  (N.of_nat (len os) * N.of_nat (len cs) * ((1 + (fc + 2) * (fo + fc + 2)) + 1) + (fc + 2) + 2)%N.
+  let P := (N.of_nat (len os) * N.of_nat (len cs))%N in
+  (P * ((1 + (fc + 3) * (fo + fc + 2)) + 1) * (P + 1) + P + (fc + 3) + 2)%N.
 
 (* the same loop driven by a binary counter (unary fuel of that size would have to be built
    first): [run_pos p] makes at most [p] iterations and stops as soon as the loop does;
@@ -573,21 +650,21 @@ Variable opq : N -> obj -> bool.
 Variable octx_ : octx.
 Variable tctx_ : tctx.
 Inductive rs :=
-| RCont (td : todo) (ex : list pend) (err : option tcerr) (k : nat)
+| RCont (td : todo) (ex fl : list pend) (err : option tcerr) (k : nat)
 | RStop (o : outcome) (k : nat).
 Definition step_rs (s : rs) : rs :=
   match s with
-  | RCont td ex err k =>
-    match step opq octx_ tctx_ td ex err k with
+  | RCont td ex fl err k =>
+    match step opq octx_ tctx_ td ex fl err k with
     | (SStop o, k') => RStop o k'
-    | (SCont td' ex' err', k') => RCont td' ex' err' k'
+    | (SCont td' ex' fl' err', k') => RCont td' ex' fl' err' k'
     end
   | RStop _ _ => s
   end.
 Fixpoint run_pos (p : positive) (s : rs) : rs :=
   match s with
   | RStop _ _ => s
-  | RCont _ _ _ _ =>
+  | RCont _ _ _ _ _ =>
     match p with
     | xH => step_rs s
     | xO p' => run_pos p' (run_pos p' s)
@@ -597,11 +674,11 @@ Fixpoint run_pos (p : positive) (s : rs) : rs :=
 Definition run_N (n : N) (s : rs) : rs :=
   match n with N0 => s | Npos p => run_pos p s end.
 Definition rs_result (s : rs) : outcome * nat :=
-  match s with RStop o k => (o, k) | RCont _ _ _ k => (Stuck, k) end.
+  match s with RStop o k => (o, k) | RCont _ _ _ _ k => (Stuck, k) end.
 Definition check_N (fuel : N) (o : obj) (c : chk) : outcome * nat :=
   match resolve tctx_ c with
   | None => (SpecErr EUnknown, 0)
-  | Some r => rs_result (run_N fuel (RCont [([(o, norm_chk (rep_chk r))], 0)] [] None 0))
+  | Some r => rs_result (run_N fuel (RCont [([(o, norm_chk (rep_chk r))], 0, 0)] [] [] None 0))
   end.
 End RunN.
 
